@@ -7,7 +7,8 @@ from . import common as C
 LEVEL = "exploration"
 RULE = ("seeded product sampling of bound geometry x start point x landscape/optimum location x noise mode x constraint x "
         "budget; every target/constraint argument, the result and every logged row is compared EXACTLY with the user's "
-        "box (and the transformed box / inverse map for logged rows). A run is non-trivial if the bound mechanism engaged: "
+        "box (and the transformed box / inverse map for logged rows); in 20% of the cases optimize() is called a SECOND time on the same object "
+        "with the boundary oracles still armed. A run is non-trivial if the bound mechanism engaged: "
         "a candidate filter received an out-of-box row, or a point with a coordinate exactly on a hard bound was evaluated, "
         "or a coordinate is log-transformed; distinct = distinct (D, geometry, start, landscape, optimum location, mode, "
         "constraint) signatures among non-trivial runs")
@@ -47,12 +48,12 @@ def cases(tier, seed):
             opts["search_grid_number"] = int(rng.choice([4, 6, 8]))  # coarser search mesh: gridisation moves points further
         spec = gen.make_spec(rng, D=int(rng.choice([1, 2, 3, 4], p=[0.25, 0.4, 0.25, 0.1])), geom=geom, x0mode=x0mode, land=land,
                              where=where, mode=mode, cons=cons, options=opts, max_fun_evals=int(rng.choice([30, 50, 80, 100])))
-        out.append({"spec": spec})
+        out.append({"spec": spec, "second_run": bool(rng.random() < 0.2)})
     return out
 
 
 def run_case(case):
-    rec = C.run_monitored(case, {"C01"})
+    rec = C.run_monitored(case, {"C01"}, second_run=bool(case.get("second_run")))
     if rec.get("status") in ("ok", "exception"):
         try:
             _boundary_stress(case, rec)
@@ -131,7 +132,10 @@ def summarize(records, tier, seed):
              "runs_with_oob_filter_input": sum(1 for r in ok if "filter-oob-input" in (r.get("flags") or [])),
              "runs_with_on_bound_evaluation": sum(1 for r in ok if "on-bound-eval" in (r.get("flags") or [])),
              "runs_with_log_coordinate": sum(1 for r in ok if "log-coordinate" in (r.get("flags") or [])),
-             "filter_rows_out_of_box_seen": C.count_sum(records, "filter_rows_oob")}
+             "filter_rows_out_of_box_seen": C.count_sum(records, "filter_rows_oob"),
+             "second_optimize_on_same_object": {"runs": sum(1 for r in records if r.get("second_status")), "completed": sum(1 for r in records if r.get("second_status") == "ok"),
+                                                "target_calls": sum(r.get("second_calls") or 0 for r in records),
+                                                "note": "boundary oracles stay armed during a second optimize() on the same object; its own failures (unchanged tree: KeyError('ntrain') in declared-noise modes) are outside the stated properties and not judged"}}
     inconc = None
     if cnt.get("C01.target_points", 0) == 0:
         inconc = "target wrapper never reached"
